@@ -152,7 +152,7 @@ Definition apply_updater (u : updater) (now : Z) (container : value) (name : str
       match container with
       | VDoc fs =>
           if py_eq arg (VDoc [("$type", VStr "timestamp")]) then Err ENotImpl
-          else Ok (VDoc (set_key name (VDate now None) fs))
+          else Ok (VDoc (set_key name (VDate (floor1000 now) None) fs))
       | _ => Ok container
       end
   end.
